@@ -10,6 +10,8 @@ pub struct Parser<'a> {
     current: Token,
     peeked: Option<Token>,
     source: &'a str,
+    /// Current nesting depth of recursive grammar rules (see `enter_nested`).
+    nesting_depth: usize,
 }
 
 impl<'a> Parser<'a> {
@@ -18,11 +20,26 @@ impl<'a> Parser<'a> {
         let mut lexer = Lexer::new(input);
         let current = lexer.next_token();
         Self {
+            nesting_depth: 0,
             lexer,
             current,
             peeked: None,
             source: input,
         }
+    }
+
+    /// Maximum nesting depth of recursive grammar rules.
+    const MAX_NESTING_DEPTH: usize = 128;
+
+    /// Enters a recursive grammar rule. Recursive descent uses one chain of stack
+    /// frames per nesting level, so input that nests too deeply is rejected with an
+    /// error instead of overflowing the stack.
+    fn enter_nested(&mut self) -> Result<()> {
+        if self.nesting_depth >= Self::MAX_NESTING_DEPTH {
+            return Err(self.error("Query nesting is too deep"));
+        }
+        self.nesting_depth += 1;
+        Ok(())
     }
 
     /// Checks if the current token can be used as a label or type name.
@@ -1163,6 +1180,13 @@ impl<'a> Parser<'a> {
     }
 
     fn parse_unary_expression(&mut self) -> Result<Expression> {
+        self.enter_nested()?;
+        let result = self.parse_unary_expression_inner();
+        self.nesting_depth -= 1;
+        result
+    }
+
+    fn parse_unary_expression_inner(&mut self) -> Result<Expression> {
         match self.current.kind {
             TokenKind::Not => {
                 self.advance();
